@@ -4,6 +4,7 @@
 CONSTANTS
   Alphabet = {120, 58, 35, 32, 9, 13, 10}
   MaxLen = 4
+  LemmaLen = 0
   ZoneWhatIf = TRUE
   Emit = TRUE
   NoIndentRule = FALSE
